@@ -188,7 +188,14 @@ def _get_active_backend(
     force_threads = (require == "sharedmem" and not supports_sharedmem) or (
         not explicit_backend and prefer == "threads" and not uses_threads
     )
-    force_processes = not explicit_backend and prefer == "processes" and uses_threads
+    # prefer="processes" is only a hint: it cannot be followed when no
+    # process-based backend is available (multiprocessing disabled).
+    force_processes = (
+        not explicit_backend
+        and prefer == "processes"
+        and uses_threads
+        and DEFAULT_PROCESS_BACKEND in BACKENDS
+    )
 
     if force_threads:
         # This backend does not match the shared memory constraint:
